@@ -16,9 +16,8 @@ for line in open('/verif/properties.jsonl'):
     pid = p['id']
     if only and pid not in only:
         continue
-    files = sorted({a['file'] if isinstance(a, dict) else a for a in p['anchors']}) if p.get('anchors') else []
-    files = sorted({re.sub(r':.*', '', f) for f in files})
-    text = "%s\n\n%s\n\nQuantified: %s\n\nWhere it lives (files): %s\n" % (p['title'], p['statement'], p['quantifier'], ', '.join(files))
+    files = p['anchors']['files']
+    text = "%s\n\n%s\n\nQuantified: %s\n\nWhere it lives (files): %s\n" % (p['title'], p['statement'], p['quantifier']['text'], ', '.join(files))
     sites = []
     for pd in sorted(glob.glob('/verif/seeded/%s-seed*/patch.diff' % pid)) + sorted(glob.glob('/tmp/wt/r*/%s/seed_out/*/patch.diff' % pid)):
         cur = None
@@ -27,7 +26,7 @@ for line in open('/verif/properties.jsonl'):
                 cur = l[6:].strip()
             m = re.match(r'@@ [^@]*@@ (.*)', l)
             if m and cur:
-                s = '- %s: %s' % (cur, m.group(1).replace('func ', '')[:75])
+                s = '- %s: %s' % (cur, m.group(1).replace('func ', '').rstrip(' {')[:75])
                 if s not in sites:
                     sites.append(s)
     wt = '/tmp/wt/r%s/%s' % (rnd, pid)
